@@ -91,9 +91,9 @@ Definition marker_leaf (t : ftab) (use_stubs : bool) (l : leaf) : list string :=
   end.
 Definition get_markers (t : ftab) (use_stubs : bool) (body : list stmt) : list string := flat_map (marker_leaf t use_stubs) (visited_all body).
 
-(* has_returns: a return / yield / raise among the visited nodes *)
+(* has_returns: a return / yield / raise among all the nodes (try bodies included: traverse(..., skip_try=False)) *)
 Definition has_returns (body : list stmt) : bool :=
-  existsb (fun l => match l with LReturn | LRaise _ => true | _ => false end) (visited body).
+  existsb (fun l => match l with LReturn | LRaise _ => true | _ => false end) (visited_all body).
 
 (* the function under analysis: its contracts in decorator order *)
 Inductive decl := DRaises (cs : list cls) | DSafe | DPure | DHas (ms : list string) | DOtherC.
@@ -112,7 +112,7 @@ Definition first_has (ds : list decl) : option (list string) :=
   fold_right (fun d acc => match d with DHas ms => Some ms | DPure => Some [] | _ => acc end) None ds.
 Definition undeclared_markers (t : ftab) (use_stubs : bool) (f : lfunc) (M : list string) : list string :=
   (if negb (has_io M) && negb (l_has_self f) && negb (has_returns (l_body f)) then ["io"] else [])
-  ++ filter (fun m => negb (linter_covers M m)) (get_markers t use_stubs (l_body f)).
+  ++ map linter_canon (filter (fun m => negb (linter_covers M m)) (get_markers t use_stubs (l_body f))).
 Definition check_markers (t : ftab) (use_stubs : bool) (f : lfunc) : list string :=
   match first_has (l_decls f) with None => [] | Some M => undeclared_markers t use_stubs f M end.
 
